@@ -147,8 +147,15 @@ impl<'a> Printer<'a> {
             E::And(es) | E::Or(es) => {
                 let is_and = matches!(e, E::And(_));
                 if self.style.blocks || es.len() < 2 {
-                    let name = if is_and { "all" } else { "any" };
                     let parts: Vec<String> = es.iter().map(|x| self.p(x, 0, true)).collect();
+                    // the long aliases now and then
+                    let long = parts.join(", ").len() % 3 == 0;
+                    let name = match (is_and, long) {
+                        (true, false) => "all",
+                        (true, true) => "conjunction",
+                        (false, false) => "any",
+                        (false, true) => "disjunction",
+                    };
                     (format!("{name} {{ {} }}", parts.join(", ")), 8)
                 } else {
                     let (op, prec) = if is_and {
